@@ -282,6 +282,84 @@ Proof.
     apply take_exact_none in Hlt. now rewrite Hlt.
 Qed.
 
+(* ------------------------------------------- checkHeader on serialised frames *)
+
+(* a frame the endpoint accepts under the limit maxsz: control frames always, others up to maxsz *)
+Definition fits (maxsz : N) (f : frame) : Prop :=
+  is_control (f_op f) = true \/ lenN (f_payload f) <= maxsz.
+
+Lemma check_header_serialize f m rest maxsz : wf_frame f ->
+  check_header (serialize f m ++ rest) maxsz =
+  if is_control (f_op f) then HOk else if maxsz <? lenN (f_payload f) then HTooBig else HOk.
+Proof.
+  intros (Hop & Hlen & Hctl).
+  unfold serialize in *. destruct f as [fin op msk key pl]; cbn [f_op f_fin f_key f_payload] in *.
+  destruct key as [[[k0 k1] k2] k3].
+  set (n := lenN pl) in *.
+  destruct (ext_len_ser m n
+              ((if m then [k0; k1; k2; k3] ++ xor_mask (k0, k1, k2, k3) pl else pl) ++ rest) Hlen)
+    as (b1 & lb & Hser & Hb7 & Hle & Heq & Hext).
+  rewrite Hser in *. cbn [app] in *. rewrite <- app_assoc.
+  unfold check_header.
+  destruct (b0_bits fin op Hop) as (H7 & Hrsv & H15). cbv zeta in H7, Hrsv, H15.
+  rewrite H7, Hrsv, H15. cbn [N.eqb negb].
+  destruct (is_control op) eqn:Ec.
+  - destruct (Hctl eq_refl) as [Hf Hn]. subst fin. cbn [negb]. rewrite orb_false_r.
+    assert (H125 : 125 <? N.land b1 127 = false) by (apply N.ltb_ge; apply Hle; exact Hn).
+    now rewrite H125.
+  - rewrite Hext. reflexivity.
+Qed.
+
+Lemma check_header_fits f m rest maxsz : wf_frame f -> fits maxsz f ->
+  check_header (serialize f m ++ rest) maxsz = HOk.
+Proof.
+  intros Hf Hfit. rewrite check_header_serialize by exact Hf.
+  destruct (is_control (f_op f)) eqn:Ec; [reflexivity|].
+  destruct Hfit as [Hc|Hle]; [congruence|].
+  destruct (maxsz <? lenN (f_payload f)) eqn:E; [lia|reflexivity].
+Qed.
+
+(* no prefix of an acceptable frame is ever refused by the header check *)
+Lemma check_header_prefix f m p q maxsz : wf_frame f -> fits maxsz f ->
+  serialize f m = p ++ q -> check_header p maxsz = HIncomplete \/ check_header p maxsz = HOk.
+Proof.
+  intros (Hop & Hlen & Hctl) Hfit Hs.
+  unfold fits in Hfit.
+  unfold serialize in *. destruct f as [fin op msk key pl]; cbn [f_op f_fin f_key f_payload] in *.
+  destruct key as [[[k0 k1] k2] k3].
+  set (n := lenN pl) in *.
+  set (body := if m then [k0; k1; k2; k3] ++ xor_mask (k0, k1, k2, k3) pl else pl) in *.
+  destruct (ext_len_ser m n body Hlen) as (b1 & lb & Hser & Hb7 & Hle & Heq & Hext).
+  rewrite Hser in *. cbn [app] in Hs.
+  destruct p as [|x [|y p']]; [now left|now left|].
+  cbn [app] in Hs. injection Hs as <- <- Hs.
+  unfold check_header.
+  destruct (b0_bits fin op Hop) as (H7 & Hrsv & H15). cbv zeta in H7, Hrsv, H15.
+  rewrite H7, Hrsv, H15. cbn [N.eqb negb].
+  destruct (is_control op) eqn:Ec.
+  - destruct (Hctl eq_refl) as [Hf Hn]. subst fin. cbn [negb]. rewrite orb_false_r.
+    assert (H125 : 125 <? N.land b1 127 = false) by (apply N.ltb_ge; apply Hle; exact Hn).
+    rewrite H125. now right.
+  - destruct Hfit as [Hc|Hmax]; [congruence|].
+    destruct (ext_len_prefix _ p' q lb body n Hext (eq_sym Hs)) as [->|(l & -> & Hb & ->)];
+      [now left|].
+    destruct (maxsz <? n) eqn:E; [lia|now right].
+Qed.
+
+(* a buffer the frame loop leaves alone: empty, or an incomplete frame whose header is not refused *)
+Definition stuck (maxsz : N) (buf : list N) : Prop :=
+  buf = [] \/ (parse buf = Nullopt /\
+              (check_header buf maxsz = HIncomplete \/ check_header buf maxsz = HOk)).
+
+Lemma frame_loop_stuck fuel r maxsz s buf : stuck maxsz buf ->
+  frame_loop fuel r maxsz s buf = (s, [], buf).
+Proof.
+  intros [->|[Hp Hh]]; [destruct fuel; reflexivity|].
+  destruct fuel; [reflexivity|]. cbn [frame_loop].
+  destruct buf; [reflexivity|].
+  destruct Hh as [-> | ->]; rewrite Hp; reflexivity.
+Qed.
+
 (* ------------------------------------------- segmentation independence *)
 
 Definition fm := (frame * bool)%type.
@@ -289,6 +367,7 @@ Definition ser1 (x : fm) : list N := serialize (fst x) (snd x).
 Definition stream (fms : list fm) : list N := concat (map ser1 fms).
 Definition norms (fms : list fm) : list frame := map (fun x => norm (fst x) (snd x)) fms.
 Definition wf_fms (fms : list fm) : Prop := Forall (fun x => wf_frame (fst x)) fms.
+Definition fit_fms (maxsz : N) (fms : list fm) : Prop := Forall (fun x => fits maxsz (fst x)) fms.
 
 Fixpoint handle_frames (r : role) (maxsz : N) (s : wstate) (fs : list frame)
   : wstate * list wevent :=
@@ -326,34 +405,36 @@ Proof.
   unfold lenN. rewrite Nat2N.id, skipn_app, skipn_all, Nat.sub_diag. reflexivity.
 Qed.
 
-Lemma frame_loop_step fuel' r maxsz s f m l : wf_frame f ->
+Lemma frame_loop_step fuel' r maxsz s f m l : wf_frame f -> fits maxsz f ->
   frame_loop (S fuel') r maxsz s (serialize f m ++ l) =
   let '(s1, e1) := handle_frame r maxsz s (norm f m) in
   let '(s2, e2, rem) := frame_loop fuel' r maxsz s1 l in (s2, e1 ++ e2, rem).
 Proof.
-  intros Hf. cbn [frame_loop].
+  intros Hf Hfit. cbn [frame_loop].
   pose proof (parse_serialize f m l Hf) as Hp.
+  pose proof (check_header_fits f m l maxsz Hf Hfit) as Hh.
   pose proof (skipn_lenN_app (serialize f m) l) as Hk.
   destruct (serialize_nonempty f m) as (b0 & b1 & t & Hne).
   remember (serialize f m ++ l) as d eqn:Hd.
   destruct d as [|x d]; [rewrite Hne in Hd; discriminate|].
-  rewrite Hp, Hk. reflexivity.
+  rewrite Hh, Hp, Hk. reflexivity.
 Qed.
 
 Lemma loop_prefix r maxsz : forall fms data more fuel s,
-  wf_fms fms -> data ++ more = stream fms -> (length data <= fuel)%nat ->
+  wf_fms fms -> fit_fms maxsz fms -> data ++ more = stream fms -> (length data <= fuel)%nat ->
   exists fms1 fms2 rem,
     fms = fms1 ++ fms2 /\
     frame_loop fuel r maxsz s data =
       (fst (handle_frames r maxsz s (norms fms1)),
        snd (handle_frames r maxsz s (norms fms1)), rem) /\
     rem ++ more = stream fms2 /\
-    (rem = [] \/ parse rem = Nullopt).
+    stuck maxsz rem.
 Proof.
-  induction fms as [|[f m] fms IH]; intros data more fuel s Hwf E Hfuel.
+  induction fms as [|[f m] fms IH]; intros data more fuel s Hwf Hfits E Hfuel.
   - cbn in E. apply app_eq_nil in E as [-> ->].
-    exists [], [], []. repeat split; auto. destruct fuel; reflexivity.
+    exists [], [], []. repeat split; auto; [destruct fuel; reflexivity|now left].
   - inversion Hwf as [|x l Hf Hwf']; subst. cbn [fst] in Hf.
+    inversion Hfits as [|x l Hfit Hfits']; subst. cbn [fst] in Hfit.
     unfold stream in E. cbn [map concat] in E. fold (stream fms) in E. unfold ser1 in E at 1.
     cbn [fst snd] in E.
     apply app_eq_app in E as [l [[Hd Hm]|[Hs Hm]]]; [subst data|subst more].
@@ -361,11 +442,11 @@ Proof.
       destruct (serialize_nonempty f m) as (b0 & b1 & t & Hne).
       destruct fuel as [|fuel'].
       { rewrite Hne in Hfuel. cbn in Hfuel. lia. }
-      destruct (IH l more fuel' (fst (handle_frame r maxsz s (norm f m))) Hwf' (eq_sym Hm))
+      destruct (IH l more fuel' (fst (handle_frame r maxsz s (norm f m))) Hwf' Hfits' (eq_sym Hm))
         as (fms1 & fms2 & rem & -> & Hloop & Hrem & Hpr).
       { rewrite app_length, Hne in Hfuel. cbn [length] in Hfuel. lia. }
       exists ((f, m) :: fms1), fms2, rem. repeat split; auto.
-      rewrite frame_loop_step by exact Hf.
+      rewrite frame_loop_step by assumption.
       cbn [norms map handle_frames fst snd].
       destruct (handle_frame r maxsz s (norm f m)) as [s1 e1]. cbn [fst] in Hloop.
       rewrite Hloop. fold (norms fms1).
@@ -377,20 +458,19 @@ Proof.
         destruct (serialize_nonempty f m) as (b0 & b1 & t & Hne).
         destruct fuel as [|fuel'].
         { rewrite Hne in Hfuel. cbn in Hfuel. lia. }
-        exists [(f, m)], fms, []. repeat split; auto.
-        pose proof (frame_loop_step fuel' r maxsz s f m [] Hf) as Hst.
+        exists [(f, m)], fms, []. repeat split; auto; [|now left].
+        pose proof (frame_loop_step fuel' r maxsz s f m [] Hf Hfit) as Hst.
         rewrite app_nil_r in Hst. rewrite Hst.
         cbn [norms map handle_frames fst snd].
         destruct (handle_frame r maxsz s (norm f m)) as [s1 e1].
         destruct fuel'; cbn [frame_loop]; rewrite app_nil_r; reflexivity.
       * exists [], ((f, m) :: fms), data. cbn [app norms map handle_frames fst snd].
-        assert (Hp : data = [] \/ parse data = Nullopt).
-        { destruct data; [now left|right].
-          eapply parse_strict_prefix; [exact Hf|exact Hs|discriminate]. }
+        assert (Hp : stuck maxsz data).
+        { destruct data as [|d0 data']; [now left|right]. split.
+          - eapply parse_strict_prefix; [exact Hf|exact Hs|discriminate].
+          - eapply check_header_prefix; [exact Hf|exact Hfit|exact Hs]. }
         repeat split; auto.
-        -- destruct Hp as [->|Hp]; [destruct fuel; reflexivity|].
-           destruct fuel; [reflexivity|]. cbn [frame_loop]. rewrite Hp.
-           destruct data; reflexivity.
+        -- now apply frame_loop_stuck.
         -- unfold stream. cbn [map concat]. unfold ser1. cbn [fst snd].
            rewrite Hs, <- app_assoc. reflexivity.
 Qed.
@@ -405,7 +485,8 @@ Proof.
     destruct (f_fin f); [|reflexivity].
     destruct (_ =? 1); [destruct (utf8_valid _); reflexivity|].
     destruct (_ =? 2); reflexivity.
-  - destruct (f_fin f); [|reflexivity].
+  - destruct (maxsz <? _); [reflexivity|].
+    destruct (f_fin f); [|reflexivity].
     destruct (_ =? 1); [reflexivity|]. destruct (_ =? 2); reflexivity.
 Qed.
 
@@ -427,6 +508,15 @@ Proof.
   destruct (f_op f =? 9); [reflexivity|]. destruct (f_op f =? 10); [reflexivity|].
   destruct (f_op f =? 8); [|reflexivity].
   destruct (close_payload _). reflexivity.
+Qed.
+
+Lemma handle_frames_client_alive maxsz : forall fs s,
+  w_alive (fst (handle_frames Client maxsz s fs)) = w_alive s.
+Proof.
+  induction fs as [|f fs IH]; intros s; [reflexivity|]. cbn [handle_frames].
+  pose proof (handle_frame_client_alive maxsz s f) as H1.
+  destruct (handle_frame Client maxsz s f) as [s1 e1]. cbn [fst] in H1.
+  specialize (IH s1). destruct (handle_frames Client maxsz s1 fs) as [s2 e2]. cbn [fst] in *. congruence.
 Qed.
 
 (* Close, if present, is the last frame of the stream *)
@@ -458,83 +548,73 @@ Proof.
   destruct (serialize_nonempty f m) as (b0 & b1 & u & ->). discriminate.
 Qed.
 
-Lemma concat_nil_feed_all r maxsz : forall chunks c,
-  concat chunks = [] -> fst c = [] \/ parse (fst c) = Nullopt ->
-  snd (feed_all r maxsz c chunks) = [].
+Lemma concat_nil_feed_all r maxsz : forall chunks s,
+  concat chunks = [] -> snd (feed_all r maxsz ([], s) chunks) = [].
 Proof.
-  induction chunks as [|ch chunks IH]; intros [buf s] E Hb; [reflexivity|].
+  induction chunks as [|ch chunks IH]; intros s E; [reflexivity|].
   cbn [concat] in E. apply app_eq_nil in E as [-> E].
-  cbn [feed_all]. cbn [fst] in Hb.
-  assert (Hf : feed r maxsz (buf, s) [] = ((buf, s), []) \/
-               feed r maxsz (buf, s) [] = ((if match r with Server => w_alive s | Client => true end
-                                             then buf else [], s), [])).
-  { unfold feed. rewrite app_nil_r.
-    assert (Hl : frame_loop (length buf) r maxsz s buf = (s, [], buf)).
-    { destruct Hb as [->|Hp]; [reflexivity|].
-      destruct buf; [reflexivity|]. cbn [length frame_loop]. now rewrite Hp. }
-    rewrite Hl. destruct r; [destruct (w_alive s)|]; auto. }
-  destruct Hf as [-> | ->].
-  - specialize (IH (buf, s) E Hb). destruct (feed_all r maxsz (buf, s) chunks). cbn in *. now subst.
-  - match goal with |- context [feed_all r maxsz ?c chunks] => specialize (IH c E) end.
-    cbn [fst] in IH.
-    destruct (feed_all r maxsz _ chunks) as [c2 e2]. cbn [snd] in *.
-    rewrite IH; [reflexivity|]. destruct (match r with Server => w_alive s | Client => true end); auto.
+  cbn [feed_all].
+  assert (Hf : feed r maxsz ([], s) [] = (([], s), [])).
+  { unfold feed. destruct (w_alive s) eqn:Ea; cbn [negb app length frame_loop]; [rewrite Ea|]; reflexivity. }
+  rewrite Hf. specialize (IH s E). destruct (feed_all r maxsz ([], s) chunks). cbn in *. now subst.
 Qed.
 
 Theorem segmentation_independent r maxsz : forall chunks fms buf s,
-  wf_fms fms -> (r = Server -> close_last fms) ->
-  (r = Server -> w_alive s = false -> fms = []) ->
-  (buf = [] \/ parse buf = Nullopt) ->
+  wf_fms fms -> fit_fms maxsz fms -> (r = Server -> close_last fms) ->
+  (w_alive s = false -> fms = []) ->
+  stuck maxsz buf ->
   buf ++ concat chunks = stream fms ->
   snd (feed_all r maxsz (buf, s) chunks) = snd (handle_frames r maxsz s (norms fms)).
 Proof.
-  induction chunks as [|ch chunks IH]; intros fms buf s Hwf Hcl Hal Hb E.
+  induction chunks as [|ch chunks IH]; intros fms buf s Hwf Hfits Hcl Hal Hb E.
   - cbn [concat] in E. rewrite app_nil_r in E. cbn [feed_all snd].
     destruct fms as [|[f m] fms]; [reflexivity|exfalso].
     unfold stream in E. cbn [map concat] in E. unfold ser1 in E at 1. cbn [fst snd] in E.
     inversion Hwf as [|x l Hf Hwf']; subst.
-    destruct Hb as [Hb|Hb].
+    destruct Hb as [Hb|[Hb _]].
     + destruct (serialize_nonempty f m) as (b0 & b1 & u & Hne). rewrite Hne in Hb. discriminate.
     + rewrite parse_serialize in Hb by exact Hf. discriminate.
   - cbn [feed_all concat] in *.
-    (* dead server session: nothing is expected any more *)
-    destruct (match r with Server => negb (w_alive s) | Client => false end) eqn:Edead.
-    { destruct r; [|discriminate]. destruct (w_alive s) eqn:Ea; [discriminate|].
-      rewrite (Hal eq_refl eq_refl) in *. cbn [norms map handle_frames snd].
-      change (stream []) with (@nil N) in E.
-      apply app_eq_nil in E as [-> E]. apply app_eq_nil in E as [-> E].
-      unfold feed. rewrite Ea.
-      pose proof (concat_nil_feed_all Server maxsz chunks ([], s) E (or_introl eq_refl)) as H0.
-      destruct (feed_all Server maxsz ([], s) chunks). cbn [snd] in *. now subst. }
+    (* dead session: nothing is expected any more *)
+    destruct (w_alive s) eqn:Ea.
+    2:{ rewrite (Hal eq_refl) in *. cbn [norms map handle_frames snd].
+        change (stream []) with (@nil N) in E.
+        apply app_eq_nil in E as [-> E]. apply app_eq_nil in E as [-> E].
+        unfold feed. rewrite Ea. cbn [negb].
+        pose proof (concat_nil_feed_all r maxsz chunks s E) as H0.
+        destruct (feed_all r maxsz ([], s) chunks). cbn [snd] in *. now subst. }
     assert (Hfeed : feed r maxsz (buf, s) ch =
               let '(s1, ev, rem) := frame_loop (length (buf ++ ch)) r maxsz s (buf ++ ch) in
-              ((if match r with Server => w_alive s1 | Client => true end then rem else [], s1), ev)).
-    { unfold feed. destruct r; [destruct (w_alive s); [reflexivity|discriminate]|reflexivity]. }
+              ((if w_alive s1 then rem else [], s1), ev)).
+    { unfold feed. rewrite Ea. reflexivity. }
     rewrite Hfeed. clear Hfeed.
     rewrite app_assoc in E.
-    destruct (loop_prefix r maxsz fms (buf ++ ch) (concat chunks) (length (buf ++ ch)) s Hwf E (le_n _))
+    destruct (loop_prefix r maxsz fms (buf ++ ch) (concat chunks) (length (buf ++ ch)) s Hwf Hfits E (le_n _))
       as (fms1 & fms2 & rem & -> & Hloop & Hrem & Hpr).
     rewrite Hloop.
     rewrite norms_app, handle_frames_app.
     destruct (handle_frames r maxsz s (norms fms1)) as [s1 e1] eqn:Eh1. cbn [fst snd].
     assert (Hwf2 : wf_fms fms2) by (apply Forall_app in Hwf; tauto).
+    assert (Hfits2 : fit_fms maxsz fms2) by (apply Forall_app in Hfits; tauto).
     assert (Hcl2 : r = Server -> close_last fms2).
     { intros Hr a x b -> Hx. apply (Hcl Hr (fms1 ++ a) x b); [now rewrite <- app_assoc|exact Hx]. }
-    assert (Hal2 : r = Server -> w_alive s1 = false -> fms2 = []).
-    { intros Hr Hd. subst r. destruct (w_alive s) eqn:Ea; [|discriminate].
-      destruct (handle_frames_alive Server maxsz fms1 s Ea) as (a & x & b & -> & Hx).
-      { rewrite Eh1. exact Hd. }
-      specialize (Hcl eq_refl a x (b ++ fms2)).
-      rewrite <- app_assoc in Hcl. specialize (Hcl eq_refl Hx).
-      apply app_eq_nil in Hcl. tauto. }
-    set (buf' := if match r with Server => w_alive s1 | Client => true end then rem else []).
-    assert (Hb' : buf' = [] \/ parse buf' = Nullopt).
-    { subst buf'. destruct (match r with Server => w_alive s1 | Client => true end); auto. }
+    assert (Hal2 : w_alive s1 = false -> fms2 = []).
+    { intros Hd. destruct r.
+      - destruct (handle_frames_alive Server maxsz fms1 s Ea) as (a & x & b & -> & Hx).
+        { rewrite Eh1. exact Hd. }
+        specialize (Hcl eq_refl a x (b ++ fms2)).
+        rewrite <- app_assoc in Hcl. specialize (Hcl eq_refl Hx).
+        apply app_eq_nil in Hcl. tauto.
+      - pose proof (handle_frames_client_alive maxsz (norms fms1) s) as Hc.
+        rewrite Eh1 in Hc. cbn [fst] in Hc. congruence. }
+    set (buf' := if w_alive s1 then rem else []).
+    assert (Hb' : stuck maxsz buf').
+    { subst buf'. destruct (w_alive s1); [exact Hpr|now left]. }
     assert (E' : buf' ++ concat chunks = stream fms2).
-    { subst buf'. destruct r; [|exact Hrem]. destruct (w_alive s1) eqn:Ea1; [exact Hrem|].
-      rewrite (Hal2 eq_refl eq_refl) in *. change (stream []) with (@nil N) in *.
+    { subst buf'. destruct (w_alive s1) eqn:Ea1; [exact Hrem|].
+      rewrite (Hal2 eq_refl) in *. change (stream []) with (@nil N) in *.
       apply app_eq_nil in Hrem as [_ ->]. reflexivity. }
-    specialize (IH fms2 buf' s1 Hwf2 Hcl2 Hal2 Hb' E').
+    specialize (IH fms2 buf' s1 Hwf2 Hfits2 Hcl2 Hal2 Hb' E').
     destruct (feed_all r maxsz (buf', s1) chunks) as [c2 e2]. cbn [snd] in *.
     destruct (handle_frames r maxsz s1 (norms fms2)) as [s2 e2']. cbn [snd] in *. now subst.
 Qed.
@@ -568,17 +648,21 @@ Qed.
 Lemma seen_after_app seen a b : seen_after seen (a ++ b) = seen_after (seen_after seen a) b.
 Proof. revert seen; induction a as [|e a IH]; intros seen; cbn [app seen_after]; auto. Qed.
 
-Definition quiet (s : wstate) : Prop := w_close_sent s = true \/ w_alive s = false.
+Definition quiet (r : role) (s : wstate) : Prop :=
+  match r with
+  | Server => w_close_sent s = true \/ w_alive s = false
+  | Client => w_csent s = true
+  end.
 
-(* a server transition is "close-safe" *)
-Definition csafe (s : wstate) (ev : list wevent) (s' : wstate) : Prop :=
-  forall seen, (seen = true -> quiet s) ->
-    ndac seen ev = true /\ (seen_after seen ev = true -> quiet s').
+(* a transition is "close-safe" *)
+Definition csafe (r : role) (s : wstate) (ev : list wevent) (s' : wstate) : Prop :=
+  forall seen, (seen = true -> quiet r s) ->
+    ndac seen ev = true /\ (seen_after seen ev = true -> quiet r s').
 
-Lemma csafe_nil s : csafe s [] s.
+Lemma csafe_nil r s : csafe r s [] s.
 Proof. intros seen H. cbn. auto. Qed.
 
-Lemma csafe_trans s1 e1 s2 e2 s3 : csafe s1 e1 s2 -> csafe s2 e2 s3 -> csafe s1 (e1 ++ e2) s3.
+Lemma csafe_trans r s1 e1 s2 e2 s3 : csafe r s1 e1 s2 -> csafe r s2 e2 s3 -> csafe r s1 (e1 ++ e2) s3.
 Proof.
   intros H1 H2 seen Hq. destruct (H1 seen Hq) as [Ha Hb].
   destruct (H2 (seen_after seen e1) Hb) as [Hc Hd].
@@ -586,16 +670,28 @@ Proof.
 Qed.
 
 Lemma csafe_srv_send_close s c rs :
-  csafe s (snd (srv_send_close s c rs)) (fst (srv_send_close s c rs)).
+  csafe Server s (snd (srv_send_close s c rs)) (fst (srv_send_close s c rs)).
 Proof.
   intros seen Hq. cbn. rewrite andb_false_r. split; [reflexivity|].
   intros _. unfold quiet. cbn. destruct (w_alive s); auto.
 Qed.
 
+Lemma csafe_cl_send_close s c rs :
+  csafe Client s (snd (cl_send_close s c rs)) (fst (cl_send_close s c rs)).
+Proof.
+  intros seen Hq. cbn. rewrite andb_false_r. split; [reflexivity|]. intros _. reflexivity.
+Qed.
+
+(* the flags quiet looks at *)
+Definition same_flags (s s' : wstate) : Prop :=
+  w_alive s' = w_alive s /\ w_close_sent s' = w_close_sent s /\ w_csent s' = w_csent s.
+Lemma quiet_same_flags r s s' : same_flags s s' -> quiet r s -> quiet r s'.
+Proof. intros (Ha & Hc & Hs). destruct r; unfold quiet; rewrite ?Ha, ?Hc, ?Hs; auto. Qed.
+
 (* events that are neither data sends nor close sends, with quiet preserved *)
-Lemma csafe_passive s ev s' :
+Lemma csafe_passive r s ev s' :
   (forall e, In e ev -> is_data_send e = false /\ is_close_send e = false) ->
-  (quiet s -> quiet s') -> csafe s ev s'.
+  (quiet r s -> quiet r s') -> csafe r s ev s'.
 Proof.
   intros Hev Hq seen Hs.
   assert (G : ndac seen ev = true /\ seen_after seen ev = seen).
@@ -605,38 +701,63 @@ Proof.
   destruct G as [-> ->]. split; [reflexivity|]. intros H. auto.
 Qed.
 
-Lemma csafe_handle_data_frame maxsz s f :
-  csafe s (snd (handle_data_frame Server maxsz s f)) (fst (handle_data_frame Server maxsz s f)).
+Lemma csafe_fail_conn r s code reason :
+  csafe r s (snd (fail_conn r s code reason)) (fst (fail_conn r s code reason)).
+Proof.
+  intros seen Hq. unfold fail_conn. destruct r.
+  - destruct (w_alive s); [|cbn; auto].
+    destruct (w_close_sent s); cbn; rewrite ?andb_false_r; (split; [reflexivity|]); intros _; now right.
+  - destruct (w_csent s); cbn; rewrite ?andb_false_r; (split; [reflexivity|]); intros _; reflexivity.
+Qed.
+
+Lemma csafe_handle_data_frame r maxsz s f :
+  csafe r s (snd (handle_data_frame r maxsz s f)) (fst (handle_data_frame r maxsz s f)).
 Proof.
   unfold handle_data_frame. destruct (negb (w_alive s)); [apply csafe_nil|].
   set (frag := if (f_op f =? 1) || (f_op f =? 2) then f_payload f
                else if f_op f =? 0 then w_frag s ++ f_payload f else w_frag s).
   set (fragop := if (f_op f =? 1) || (f_op f =? 2) then f_op f else w_fragop s).
-  destruct (maxsz <? lenN frag).
-  { cbn [srv_send_close fst snd].
-    change ([EvSend (make_close 1009 reason_too_big)] ++ [EvError]) with
-      (snd (srv_send_close (mkW (w_alive s) frag fragop (w_close_sent s) (w_connected s)) 1009 reason_too_big)
-       ++ [EvError]).
-    eapply csafe_trans.
-    - eapply (csafe_trans _ [] (mkW (w_alive s) frag fragop (w_close_sent s) (w_connected s)));
-        [|apply csafe_srv_send_close].
-      apply csafe_passive; [intros e []|]. unfold quiet; cbn; auto.
-    - apply csafe_passive; [|auto]. intros e [<-|[]]; auto. }
-  destruct (f_fin f).
-  - destruct (fragop =? 1).
-    + destruct (utf8_valid frag).
-      * apply csafe_passive; [intros e [<-|[]]; auto|]. unfold quiet; cbn; auto.
-      * eapply (csafe_trans _ [] (mkW (w_alive s) [] 0 (w_close_sent s) (w_connected s)));
-          [|apply csafe_srv_send_close].
-        apply csafe_passive; [intros e []|]. unfold quiet; cbn; auto.
-    + destruct (fragop =? 2); (apply csafe_passive; [|unfold quiet; cbn; auto]).
+  set (s1 := mkW (w_alive s) frag fragop (w_close_sent s) (w_connected s) (w_csent s)).
+  set (s0 := mkW (w_alive s) [] 0 (w_close_sent s) (w_connected s) (w_csent s)).
+  assert (Hq0 : quiet r s -> quiet r s0) by (apply quiet_same_flags; repeat split).
+  assert (Hq1 : quiet r s -> quiet r s1) by (apply quiet_same_flags; repeat split).
+  destruct r.
+  - destruct (maxsz <? lenN frag).
+    { cbn [srv_send_close fst snd].
+      change ([EvSend (make_close 1009 reason_too_big)] ++ [EvError]) with
+        (snd (srv_send_close s0 1009 reason_too_big) ++ [EvError]).
+      eapply csafe_trans.
+      - eapply (csafe_trans _ _ [] s0); [|apply csafe_srv_send_close].
+        apply csafe_passive; [intros e []|exact Hq0].
+      - apply csafe_passive; [|auto]. intros e [<-|[]]; auto. }
+    destruct (f_fin f).
+    + destruct (fragop =? 1).
+      * destruct (utf8_valid frag).
+        -- apply csafe_passive; [intros e [<-|[]]; auto|exact Hq0].
+        -- eapply (csafe_trans _ _ [] s0); [|apply csafe_srv_send_close].
+           apply csafe_passive; [intros e []|exact Hq0].
+      * destruct (fragop =? 2); (apply csafe_passive; [|exact Hq0]).
+        -- intros e [<-|[]]; auto.
+        -- intros e [].
+    + apply csafe_passive; [intros e []|exact Hq1].
+  - destruct (maxsz <? lenN frag).
+    { cbn [cl_send_close fst snd].
+      change ([EvSend (make_close 1009 reason_too_big)] ++ [EvError]) with
+        (snd (cl_send_close s0 1009 reason_too_big) ++ [EvError]).
+      eapply csafe_trans.
+      - eapply (csafe_trans _ _ [] s0); [|apply csafe_cl_send_close].
+        apply csafe_passive; [intros e []|exact Hq0].
+      - apply csafe_passive; [|auto]. intros e [<-|[]]; auto. }
+    destruct (f_fin f).
+    + destruct (fragop =? 1); [apply csafe_passive; [intros e [<-|[]]; auto|exact Hq0]|].
+      destruct (fragop =? 2); (apply csafe_passive; [|exact Hq0]).
       * intros e [<-|[]]; auto.
       * intros e [].
-  - apply csafe_passive; [intros e []|]. unfold quiet; cbn; auto.
+    + apply csafe_passive; [intros e []|exact Hq1].
 Qed.
 
-Lemma csafe_handle_frame maxsz s f :
-  csafe s (snd (handle_frame Server maxsz s f)) (fst (handle_frame Server maxsz s f)).
+Lemma csafe_handle_frame r maxsz s f :
+  csafe r s (snd (handle_frame r maxsz s f)) (fst (handle_frame r maxsz s f)).
 Proof.
   unfold handle_frame.
   destruct ((f_op f =? 0) || (f_op f =? 1) || (f_op f =? 2)); [apply csafe_handle_data_frame|].
@@ -644,75 +765,111 @@ Proof.
   { apply csafe_passive; [|auto]. intros e [<-|[]]; auto. }
   destruct (f_op f =? 10); [apply csafe_nil|].
   destruct (f_op f =? 8).
-  { destruct (close_payload (f_payload f)) as [code reason]. cbn [fst snd].
-    intros seen Hq. split.
-    - destruct (w_alive s && negb (w_close_sent s)) eqn:Ee; cbn;
-        rewrite ?andb_false_r; reflexivity.
-    - intros _. right. reflexivity. }
-  cbn [srv_send_close fst snd].
-  change ([EvSend (make_close 1002 reason_opcode)] ++ [EvError]) with
-    (snd (srv_send_close s 1002 reason_opcode) ++ [EvError]).
-  eapply csafe_trans; [apply csafe_srv_send_close|].
-  apply csafe_passive; [|auto]. intros e [<-|[]]; auto.
+  { destruct (close_payload (f_payload f)) as [code reason]. destruct r; cbn [fst snd].
+    - intros seen Hq. split.
+      + destruct (w_alive s && negb (w_close_sent s)) eqn:Ee; cbn;
+          rewrite ?andb_false_r; reflexivity.
+      + intros _. right. reflexivity.
+    - intros seen Hq. destruct (w_close_sent s) eqn:Ecs; cbn [negb app ndac seen_after is_data_send is_close_send
+                                                               make_close f_op]; cbn; rewrite ?andb_false_r.
+      + rewrite !orb_false_r. split; [reflexivity|]. intros ->. exact (Hq eq_refl).
+      + split; [reflexivity|]. intros _. unfold quiet. cbn. apply orb_true_r. }
+  destruct r.
+  - cbn [srv_send_close fst snd].
+    change ([EvSend (make_close 1002 reason_opcode)] ++ [EvError]) with
+      (snd (srv_send_close s 1002 reason_opcode) ++ [EvError]).
+    eapply csafe_trans; [apply csafe_srv_send_close|].
+    apply csafe_passive; [|auto]. intros e [<-|[]]; auto.
+  - apply csafe_nil.
 Qed.
 
-Lemma csafe_frame_loop maxsz : forall fuel s data,
-  csafe s (snd (fst (frame_loop fuel Server maxsz s data)))
-          (fst (fst (frame_loop fuel Server maxsz s data))).
+Lemma csafe_frame_loop r maxsz : forall fuel s data,
+  csafe r s (snd (fst (frame_loop fuel r maxsz s data)))
+            (fst (fst (frame_loop fuel r maxsz s data))).
 Proof.
   induction fuel as [|fuel IH]; intros s data; cbn [frame_loop]; [apply csafe_nil|].
   destruct data as [|x d]; [apply csafe_nil|].
-  destruct (parse (x :: d)) as [|f c]; [apply csafe_nil|].
-  pose proof (csafe_handle_frame maxsz s f) as H1.
-  destruct (handle_frame Server maxsz s f) as [s1 e1]. cbn [fst snd] in H1.
-  specialize (IH s1 (skipn (N.to_nat c) (x :: d))).
-  destruct (frame_loop fuel Server maxsz s1 _) as [[s2 e2] rem]. cbn [fst snd] in *.
-  eapply csafe_trans; eauto.
+  assert (Hrest : csafe r s
+            (snd (fst (match parse (x :: d) with
+                       | Nullopt => (s, [], x :: d)
+                       | Parsed f c =>
+                         let rest := skipn (N.to_nat c) (x :: d) in
+                         let '(s1, ev1) := handle_frame r maxsz s f in
+                         let '(s2, ev2, rem) := frame_loop fuel r maxsz s1 rest in (s2, ev1 ++ ev2, rem)
+                       end)))
+            (fst (fst (match parse (x :: d) with
+                       | Nullopt => (s, [], x :: d)
+                       | Parsed f c =>
+                         let rest := skipn (N.to_nat c) (x :: d) in
+                         let '(s1, ev1) := handle_frame r maxsz s f in
+                         let '(s2, ev2, rem) := frame_loop fuel r maxsz s1 rest in (s2, ev1 ++ ev2, rem)
+                       end)))).
+  { destruct (parse (x :: d)) as [|f c]; [apply csafe_nil|]. cbv zeta.
+    pose proof (csafe_handle_frame r maxsz s f) as H1.
+    destruct (handle_frame r maxsz s f) as [s1 e1]. cbn [fst snd] in H1.
+    specialize (IH s1 (skipn (N.to_nat c) (x :: d))).
+    destruct (frame_loop fuel r maxsz s1 _) as [[s2 e2] rem]. cbn [fst snd] in *.
+    eapply csafe_trans; eauto. }
+  destruct (check_header (x :: d) maxsz); try exact Hrest.
+  - pose proof (csafe_fail_conn r s 1002 reason_proto) as H.
+    destruct (fail_conn r s 1002 reason_proto). exact H.
+  - pose proof (csafe_fail_conn r s 1009 reason_too_big) as H.
+    destruct (fail_conn r s 1009 reason_too_big). exact H.
 Qed.
 
-Lemma csafe_wstep maxsz c o :
-  csafe (snd c) (snd (wstep Server maxsz c o)) (snd (fst (wstep Server maxsz c o))).
+Lemma csafe_wstep r maxsz c o :
+  csafe r (snd c) (snd (wstep r maxsz c o)) (snd (fst (wstep r maxsz c o))).
 Proof.
   destruct c as [buf s]. destruct o as [ch|a]; cbn [wstep snd fst].
-  - unfold feed. destruct (w_alive s); [|apply csafe_nil].
-    pose proof (csafe_frame_loop maxsz (length (buf ++ ch)) s (buf ++ ch)) as H.
-    destruct (frame_loop _ Server maxsz s (buf ++ ch)) as [[s1 e1] rem]. exact H.
-  - destruct a as [p|p|p|cd rs]; cbn [app_send].
-    + destruct (w_alive s && negb (w_close_sent s)) eqn:E; cbn [fst snd]; [|apply csafe_nil].
-      intros seen Hq. destruct seen.
-      * exfalso. destruct (Hq eq_refl) as [H|H]; rewrite H in E; cbn in E;
-          [rewrite andb_false_r in E|]; discriminate.
-      * cbn. auto.
-    + destruct (w_alive s && negb (w_close_sent s)) eqn:E; cbn [fst snd]; [|apply csafe_nil].
-      intros seen Hq. destruct seen.
-      * exfalso. destruct (Hq eq_refl) as [H|H]; rewrite H in E; cbn in E;
-          [rewrite andb_false_r in E|]; discriminate.
-      * cbn. auto.
-    + destruct (w_alive s && negb (w_close_sent s)) eqn:E; cbn [fst snd]; [|apply csafe_nil].
-      apply csafe_passive; [|auto]. intros e [<-|[]]; auto.
-    + pose proof (csafe_srv_send_close s cd rs) as H.
-      destruct (srv_send_close s cd rs). exact H.
+  - unfold feed. destruct (negb (w_alive s)); [apply csafe_nil|].
+    pose proof (csafe_frame_loop r maxsz (length (buf ++ ch)) s (buf ++ ch)) as H.
+    destruct (frame_loop _ r maxsz s (buf ++ ch)) as [[s1 e1] rem]. exact H.
+  - destruct r.
+    + destruct a as [p|p|p|cd rs]; cbn [app_send].
+      * destruct (w_alive s && negb (w_close_sent s)) eqn:E; cbn [fst snd]; [|apply csafe_nil].
+        intros seen Hq. destruct seen.
+        -- exfalso. destruct (Hq eq_refl) as [H|H]; rewrite H in E; cbn in E;
+             [rewrite andb_false_r in E|]; discriminate.
+        -- cbn. auto.
+      * destruct (w_alive s && negb (w_close_sent s)) eqn:E; cbn [fst snd]; [|apply csafe_nil].
+        intros seen Hq. destruct seen.
+        -- exfalso. destruct (Hq eq_refl) as [H|H]; rewrite H in E; cbn in E;
+             [rewrite andb_false_r in E|]; discriminate.
+        -- cbn. auto.
+      * destruct (w_alive s && negb (w_close_sent s)) eqn:E; cbn [fst snd]; [|apply csafe_nil].
+        apply csafe_passive; [|auto]. intros e [<-|[]]; auto.
+      * pose proof (csafe_srv_send_close s cd rs) as H.
+        destruct (srv_send_close s cd rs). exact H.
+    + destruct a as [p|p|p|cd rs]; cbn [app_send].
+      * destruct (w_connected s && negb (w_csent s)) eqn:E; cbn [fst snd]; [|apply csafe_nil].
+        intros seen Hq. destruct seen.
+        -- exfalso. pose proof (Hq eq_refl) as H. unfold quiet in H. rewrite H in E.
+           rewrite andb_false_r in E. discriminate.
+        -- cbn. auto.
+      * destruct (w_connected s && negb (w_csent s)) eqn:E; cbn [fst snd]; [|apply csafe_nil].
+        intros seen Hq. destruct seen.
+        -- exfalso. pose proof (Hq eq_refl) as H. unfold quiet in H. rewrite H in E.
+           rewrite andb_false_r in E. discriminate.
+        -- cbn. auto.
+      * destruct (w_connected s && negb (w_csent s)) eqn:E; cbn [fst snd]; [|apply csafe_nil].
+        apply csafe_passive; [|auto]. intros e [<-|[]]; auto.
+      * pose proof (csafe_cl_send_close s cd rs) as H.
+        destruct (cl_send_close s cd rs). exact H.
 Qed.
 
-Theorem server_no_data_after_close maxsz : forall ops c seen,
-  (seen = true -> quiet (snd c)) ->
-  ndac seen (snd (wrun Server maxsz c ops)) = true.
+Theorem no_data_after_close r maxsz : forall ops c seen,
+  (seen = true -> quiet r (snd c)) ->
+  ndac seen (snd (wrun r maxsz c ops)) = true.
 Proof.
   induction ops as [|o ops IH]; intros c seen Hq; [reflexivity|].
   cbn [wrun].
-  pose proof (csafe_wstep maxsz c o) as H.
-  destruct (wstep Server maxsz c o) as [c1 e1]. cbn [fst snd] in H.
+  pose proof (csafe_wstep r maxsz c o) as H.
+  destruct (wstep r maxsz c o) as [c1 e1]. cbn [fst snd] in H.
   destruct (H seen Hq) as [Ha Hb].
   specialize (IH c1 (seen_after seen e1) Hb).
-  destruct (wrun Server maxsz c1 ops) as [c2 e2]. cbn [snd] in *.
+  destruct (wrun r maxsz c1 ops) as [c2 e2]. cbn [snd] in *.
   rewrite ndac_app, Ha, IH. reflexivity.
 Qed.
-
-(* the client does not have this property: sendClose() leaves the state CONNECTED *)
-Lemma client_data_after_close_witness :
-  ndac false (snd (wrun Client 100 conn_init
-                     [OpApp (AppClose 1000 []); OpApp (AppText [104; 105])])) = false.
-Proof. vm_compute. reflexivity. Qed.
 
 (* --------------------------------------------------------- reassembly *)
 
@@ -738,27 +895,26 @@ Definition deliver (r : role) (op : N) (t : list N) : list wevent :=
     end
   else [EvBinary t].
 
-Definition size_ok (r : role) (maxsz : N) (t : list N) : Prop :=
-  match r with Server => lenN t <= maxsz | Client => True end.
+Definition size_ok (r : role) (maxsz : N) (t : list N) : Prop := lenN t <= maxsz.
 
-Lemma mids_spec r maxsz op : forall mids acc cs cn,
+Lemma mids_spec r maxsz op : forall mids acc cs cn cx,
   (op = 1 \/ op = 2) ->
   size_ok r maxsz (acc ++ concat (map mid_payload mids)) ->
-  handle_frames r maxsz (mkW true acc op cs cn) (map mid_frame mids) =
-  (mkW true (acc ++ concat (map mid_payload mids)) op cs cn, concat (map mid_events mids)).
+  handle_frames r maxsz (mkW true acc op cs cn cx) (map mid_frame mids) =
+  (mkW true (acc ++ concat (map mid_payload mids)) op cs cn cx, concat (map mid_events mids)).
 Proof.
-  induction mids as [|x mids IH]; intros acc cs cn Hop Hsz.
+  induction mids as [|x mids IH]; intros acc cs cn cx Hop Hsz.
   - cbn. now rewrite app_nil_r.
   - cbn [map handle_frames concat].
-    assert (Hstep : handle_frame r maxsz (mkW true acc op cs cn) (mid_frame x) =
-                    (mkW true (acc ++ mid_payload x) op cs cn, mid_events x)).
+    assert (Hstep : handle_frame r maxsz (mkW true acc op cs cn cx) (mid_frame x) =
+                    (mkW true (acc ++ mid_payload x) op cs cn cx, mid_events x)).
     { destruct x as [p|p|p]; cbn [mid_frame mid_payload mid_events].
       - unfold handle_frame. cbn [f_op N.eqb orb]. unfold handle_data_frame.
-        cbn [w_alive negb f_op N.eqb Pos.eqb orb w_frag w_fragop f_payload f_fin w_close_sent w_connected].
-        destruct r; [|reflexivity].
-        cbn [size_ok] in Hsz.
-        destruct (maxsz <? lenN (acc ++ p)) eqn:E; [|reflexivity].
-        cbn [map concat mid_payload] in Hsz. rewrite app_assoc, lenN_app in Hsz. lia.
+        cbn [w_alive negb f_op N.eqb Pos.eqb orb w_frag w_fragop f_payload f_fin w_close_sent w_connected w_csent].
+        unfold size_ok in Hsz.
+        assert (E : maxsz <? lenN (acc ++ p) = false).
+        { cbn [map concat mid_payload] in Hsz. rewrite app_assoc, lenN_app in Hsz. lia. }
+        rewrite E. destruct r; reflexivity.
       - rewrite app_nil_r. reflexivity.
       - rewrite app_nil_r. reflexivity. }
     rewrite Hstep. cbn [mid_payload] in *.
@@ -767,43 +923,40 @@ Proof.
     + cbn [map concat] in Hsz. rewrite <- app_assoc. exact Hsz.
 Qed.
 
-Theorem reassembly r maxsz op p0 mids plast cs cn :
+Theorem reassembly r maxsz op p0 mids plast cs cn cx :
   (op = 1 \/ op = 2) ->
   let total := p0 ++ concat (map mid_payload mids) ++ plast in
   size_ok r maxsz total ->
-  handle_frames r maxsz (mkW true [] 0 cs cn) (fragmented op p0 mids plast) =
+  handle_frames r maxsz (mkW true [] 0 cs cn cx) (fragmented op p0 mids plast) =
   (mkW true [] 0 (match r, op =? 1, utf8_valid total with
-                  | Server, true, false => true | _, _, _ => cs end) cn,
+                  | Server, true, false => true | _, _, _ => cs end) cn cx,
    concat (map mid_events mids) ++ deliver r op total).
 Proof.
-  intros Hop total Hsz. unfold fragmented.
+  intros Hop total Hsz. unfold fragmented. unfold size_ok in Hsz.
   change (?a :: ?l ++ ?m) with ([a] ++ l ++ m).
   rewrite !handle_frames_app.
   (* first fragment *)
-  assert (H1 : handle_frames r maxsz (mkW true [] 0 cs cn) [mkFrame false op false key0 p0] =
-               (mkW true p0 op cs cn, [])).
+  assert (H1 : handle_frames r maxsz (mkW true [] 0 cs cn cx) [mkFrame false op false key0 p0] =
+               (mkW true p0 op cs cn cx, [])).
   { cbn [handle_frames]. unfold handle_frame. cbn [f_op].
     assert (Hs : (op =? 1) || (op =? 2) = true) by (destruct Hop; subst; reflexivity).
     assert (Hd : (op =? 0) || (op =? 1) || (op =? 2) = true) by (destruct Hop; subst; reflexivity).
     rewrite Hd. unfold handle_data_frame.
-    cbn [w_alive negb f_op w_frag w_fragop f_payload f_fin w_close_sent w_connected].
+    cbn [w_alive negb f_op w_frag w_fragop f_payload f_fin w_close_sent w_connected w_csent].
     rewrite Hs.
-    destruct r; [|reflexivity].
-    destruct (maxsz <? lenN p0) eqn:E; [|reflexivity].
-    cbn [size_ok] in Hsz. subst total. rewrite lenN_app in Hsz. lia. }
+    assert (E : maxsz <? lenN p0 = false) by (subst total; rewrite lenN_app in Hsz; lia).
+    rewrite E. destruct r; reflexivity. }
   rewrite H1. rewrite handle_frames_app.
   rewrite mids_spec; [|exact Hop|].
-  2:{ subst total. destruct r; cbn [size_ok] in *; [|exact I].
-      rewrite app_assoc, lenN_app in Hsz. lia. }
+  2:{ subst total. unfold size_ok. rewrite app_assoc, lenN_app in Hsz. lia. }
   (* last fragment *)
   cbn [handle_frames]. unfold handle_frame. cbn [f_op N.eqb orb]. unfold handle_data_frame.
-  cbn [w_alive negb f_op N.eqb Pos.eqb orb w_frag w_fragop f_payload f_fin w_close_sent w_connected].
+  cbn [w_alive negb f_op N.eqb Pos.eqb orb w_frag w_fragop f_payload f_fin w_close_sent w_connected w_csent].
   rewrite <- app_assoc. fold total.
   unfold deliver.
+  assert (E : maxsz <? lenN total = false) by lia. rewrite E.
   destruct r.
-  - cbn [size_ok] in Hsz.
-    destruct (maxsz <? lenN total) eqn:E; [lia|].
-    destruct Hop; subst op; cbn [N.eqb Pos.eqb].
+  - destruct Hop; subst op; cbn [N.eqb Pos.eqb].
     + destruct (utf8_valid total); cbn [srv_send_close w_alive]; rewrite ?app_nil_r; reflexivity.
     + destruct (utf8_valid total); rewrite ?app_nil_r; reflexivity.
   - destruct Hop; subst op; cbn [N.eqb Pos.eqb]; destruct (utf8_valid total);
@@ -816,12 +969,198 @@ Lemma handle_frame_unmask r maxsz s f :
   handle_frame r maxsz s f = handle_frame r maxsz s (unmask f).
 Proof. reflexivity. Qed.
 
-(* --------------------------------------- unbounded buffering (current code) *)
-(* A 10-byte header declaring 2^62 payload bytes makes the server keep every later
-   byte although maxFrameSize is 16: the limit is applied to reassembled payloads
-   only. *)
+(* ------------------------------------------- bounded buffering (after the repair of C18-F1b / F1c2) *)
+
+Lemma ext_len_used l7 rest n r u : ext_len l7 rest = Some (n, r, u) -> u <= 8.
+Proof.
+  unfold ext_len. destruct (l7 =? 126).
+  { destruct (take_exact 2 rest) as [[a b]|]; [|discriminate]. intros H; inversion H; lia. }
+  destruct (l7 =? 127).
+  { destruct (take_exact 8 rest) as [[a b]|]; [|discriminate]. intros H; inversion H; lia. }
+  intros H; inversion H; lia.
+Qed.
+
+Lemma ext_len_none l7 rest : ext_len l7 rest = None -> lenN rest < 8.
+Proof.
+  unfold ext_len. destruct (l7 =? 126).
+  { destruct (take_exact 2 rest) as [[a b]|] eqn:E; [discriminate|]. apply take_exact_none in E. lia. }
+  destruct (l7 =? 127).
+  { destruct (take_exact 8 rest) as [[a b]|] eqn:E; [discriminate|]. apply take_exact_none in E. lia. }
+  discriminate.
+Qed.
+
+Lemma read_key_none m rest : read_key m rest = None -> lenN rest < 4.
+Proof.
+  unfold read_key. destruct m; [|discriminate].
+  destruct rest as [|a [|b [|c [|d t]]]]; try discriminate; intros _; rewrite ?lenN_cons, ?lenN_nil; lia.
+Qed.
+
+(* what the frame loop leaves in the buffer is shorter than one header plus one acceptable payload *)
+Lemma stuck_bound maxsz d : stuck maxsz d -> lenN d < 14 + N.max maxsz 125.
+Proof.
+  intros [->|[Hp Hh]]; [rewrite lenN_nil; lia|].
+  destruct d as [|b0 [|b1 rest]]; [rewrite lenN_nil; lia|rewrite lenN_cons, lenN_nil; lia|].
+  unfold parse in Hp. unfold check_header in Hh. rewrite !lenN_cons.
+  destruct (negb (N.land (N.shiftr b0 4) 7 =? 0)); [discriminate|].
+  destruct (is_control (N.land b0 15)) eqn:Ec.
+  - (* control frame: the header check said Ok, so l7 <= 125 and fin *)
+    destruct ((125 <? N.land b1 127) || negb (N.testbit b0 7)) eqn:Eb.
+    { destruct Hh; discriminate. }
+    cbn [andb] in Hp.
+    apply orb_false_iff in Eb as [E125 _].
+    destruct (ext_len (N.land b1 127) rest) as [[[plen r1] used]|] eqn:E1.
+    2:{ apply ext_len_none in E1. lia. }
+    pose proof (ext_len_used _ _ _ _ _ E1) as Hu.
+    assert (Hpl : plen = N.land b1 127).
+    { unfold ext_len in E1. destruct (N.land b1 127 =? 126) eqn:?; [lia|].
+      destruct (N.land b1 127 =? 127) eqn:?; [lia|]. congruence. }
+    apply ext_len_spec in E1 as (lb & -> & Hlb). rewrite lenN_app.
+    destruct (read_key (N.testbit b1 7) r1) as [[key r2]|] eqn:E2.
+    2:{ apply read_key_none in E2. lia. }
+    apply read_key_spec in E2 as (kb & -> & Hk). rewrite lenN_app.
+    destruct (take_exact plen r2) as [[raw r3]|] eqn:E3; [discriminate|].
+    apply take_exact_none in E3.
+    destruct (N.testbit b1 7); lia.
+  - cbn [andb] in Hp.
+    destruct (ext_len (N.land b1 127) rest) as [[[plen r1] used]|] eqn:E1.
+    2:{ apply ext_len_none in E1. lia. }
+    pose proof (ext_len_used _ _ _ _ _ E1) as Hu.
+    destruct (maxsz <? plen) eqn:Emax; [destruct Hh; discriminate|].
+    apply ext_len_spec in E1 as (lb & -> & Hlb). rewrite lenN_app.
+    destruct (read_key (N.testbit b1 7) r1) as [[key r2]|] eqn:E2.
+    2:{ apply read_key_none in E2. lia. }
+    apply read_key_spec in E2 as (kb & -> & Hk). rewrite lenN_app.
+    destruct (take_exact plen r2) as [[raw r3]|] eqn:E3; [discriminate|].
+    apply take_exact_none in E3.
+    destruct (N.testbit b1 7); lia.
+Qed.
+
+Lemma skipn_length_le {A} n (l : list A) : (length (skipn n l) = length l - n)%nat.
+Proof. apply skipn_length. Qed.
+
+Lemma frame_loop_rem r maxsz : forall fuel s data, (length data <= fuel)%nat ->
+  stuck maxsz (snd (frame_loop fuel r maxsz s data)).
+Proof.
+  induction fuel as [|fuel IH]; intros s data Hlen.
+  - destruct data; [now left|cbn in Hlen; lia].
+  - cbn [frame_loop]. destruct data as [|x d]; [now left|].
+    assert (Hparse : forall h, check_header (x :: d) maxsz = h -> h = HIncomplete \/ h = HOk ->
+              stuck maxsz (snd (match parse (x :: d) with
+                                | Nullopt => (s, [], x :: d)
+                                | Parsed f c =>
+                                  let rest := skipn (N.to_nat c) (x :: d) in
+                                  let '(s1, ev1) := handle_frame r maxsz s f in
+                                  let '(s2, ev2, rem) := frame_loop fuel r maxsz s1 rest in (s2, ev1 ++ ev2, rem)
+                                end))).
+    { intros h Eh Hh. destruct (parse (x :: d)) as [|f c] eqn:Ep.
+      - cbn [snd]. right. split; [exact Ep|]. rewrite Eh. exact Hh.
+      - cbv zeta. pose proof (parse_bounds _ _ _ Ep) as (Hc2 & Hcl & _).
+        destruct (handle_frame r maxsz s f) as [s1 e1].
+        assert (Hl : (length (skipn (N.to_nat c) (x :: d)) <= fuel)%nat).
+        { rewrite skipn_length. unfold lenN in Hcl. lia. }
+        specialize (IH s1 _ Hl).
+        destruct (frame_loop fuel r maxsz s1 _) as [[s2 e2] rem]. exact IH. }
+    destruct (check_header (x :: d) maxsz) eqn:Eh.
+    + apply (Hparse HIncomplete eq_refl). now left.
+    + apply (Hparse HOk eq_refl). now right.
+    + destruct (fail_conn r s 1002 reason_proto). now left.
+    + destruct (fail_conn r s 1009 reason_too_big). now left.
+Qed.
+
+Definition frag_ok (maxsz : N) (s : wstate) : Prop := lenN (w_frag s) <= maxsz.
+
+Lemma frag_ok_handle_data_frame r maxsz s f :
+  frag_ok maxsz s -> frag_ok maxsz (fst (handle_data_frame r maxsz s f)).
+Proof.
+  intros H. unfold handle_data_frame. destruct (negb (w_alive s)); [exact H|].
+  set (frag := if (f_op f =? 1) || (f_op f =? 2) then f_payload f
+               else if f_op f =? 0 then w_frag s ++ f_payload f else w_frag s).
+  set (fragop := if (f_op f =? 1) || (f_op f =? 2) then f_op f else w_fragop s).
+  assert (H0 : forall a b c d e, frag_ok maxsz (mkW a [] b c d e)).
+  { intros. unfold frag_ok. cbn [w_frag]. rewrite lenN_nil. lia. }
+  destruct (maxsz <? lenN frag) eqn:E.
+  - destruct r; cbn [srv_send_close cl_send_close fst w_alive w_frag w_fragop w_close_sent w_connected w_csent];
+      apply H0.
+  - assert (H1 : forall a b c d e, frag_ok maxsz (mkW a frag b c d e)).
+    { intros. unfold frag_ok. cbn [w_frag]. lia. }
+    destruct r.
+    + destruct (f_fin f); [|apply H1].
+      destruct (fragop =? 1); [destruct (utf8_valid frag)|destruct (fragop =? 2)];
+        cbn [srv_send_close fst w_alive w_frag w_fragop w_close_sent w_connected w_csent]; apply H0.
+    + destruct (f_fin f); [|apply H1].
+      destruct (fragop =? 1); [|destruct (fragop =? 2)]; apply H0.
+Qed.
+
+Lemma frag_ok_handle_frame r maxsz s f :
+  frag_ok maxsz s -> frag_ok maxsz (fst (handle_frame r maxsz s f)).
+Proof.
+  intros H. unfold handle_frame.
+  destruct ((f_op f =? 0) || (f_op f =? 1) || (f_op f =? 2)); [now apply frag_ok_handle_data_frame|].
+  destruct (f_op f =? 9); [exact H|]. destruct (f_op f =? 10); [exact H|].
+  destruct (f_op f =? 8).
+  { destruct (close_payload (f_payload f)). destruct r; exact H. }
+  destruct r; exact H.
+Qed.
+
+Lemma frag_ok_fail_conn r maxsz s c rs : frag_ok maxsz s -> frag_ok maxsz (fst (fail_conn r s c rs)).
+Proof.
+  intros H. unfold fail_conn. destruct r; [destruct (w_alive s); exact H|].
+  unfold frag_ok. cbn [fst w_frag]. rewrite lenN_nil. lia.
+Qed.
+
+Lemma frag_ok_frame_loop r maxsz : forall fuel s data,
+  frag_ok maxsz s -> frag_ok maxsz (fst (fst (frame_loop fuel r maxsz s data))).
+Proof.
+  induction fuel as [|fuel IH]; intros s data H; cbn [frame_loop]; [exact H|].
+  destruct data as [|x d]; [exact H|].
+  assert (Hparse : frag_ok maxsz (fst (fst (match parse (x :: d) with
+                                | Nullopt => (s, [], x :: d)
+                                | Parsed f c =>
+                                  let rest := skipn (N.to_nat c) (x :: d) in
+                                  let '(s1, ev1) := handle_frame r maxsz s f in
+                                  let '(s2, ev2, rem) := frame_loop fuel r maxsz s1 rest in (s2, ev1 ++ ev2, rem)
+                                end)))).
+  { destruct (parse (x :: d)) as [|f c]; [exact H|]. cbv zeta.
+    pose proof (frag_ok_handle_frame r maxsz s f H) as H1.
+    destruct (handle_frame r maxsz s f) as [s1 e1]. cbn [fst] in H1.
+    specialize (IH s1 (skipn (N.to_nat c) (x :: d)) H1).
+    destruct (frame_loop fuel r maxsz s1 _) as [[s2 e2] rem]. exact IH. }
+  destruct (check_header (x :: d) maxsz); try exact Hparse.
+  - pose proof (frag_ok_fail_conn r maxsz s 1002 reason_proto H) as Hf.
+    destruct (fail_conn r s 1002 reason_proto). exact Hf.
+  - pose proof (frag_ok_fail_conn r maxsz s 1009 reason_too_big H) as Hf.
+    destruct (fail_conn r s 1009 reason_too_big). exact Hf.
+Qed.
+
+Definition bounded (maxsz : N) (c : conn) : Prop :=
+  lenN (fst c) < 14 + N.max maxsz 125 /\ frag_ok maxsz (snd c).
+
+Lemma bounded_wstep r maxsz c o : bounded maxsz c -> bounded maxsz (fst (wstep r maxsz c o)).
+Proof.
+  destruct c as [buf s]. intros [Hb Hf]. cbn [fst snd] in *.
+  destruct o as [ch|a]; cbn [wstep].
+  - unfold feed. destruct (negb (w_alive s)); [split; assumption|].
+    pose proof (frame_loop_rem r maxsz (length (buf ++ ch)) s (buf ++ ch) (le_n _)) as Hr.
+    pose proof (frag_ok_frame_loop r maxsz (length (buf ++ ch)) s (buf ++ ch) Hf) as Hfr.
+    destruct (frame_loop _ r maxsz s (buf ++ ch)) as [[s1 e1] rem]. cbn [fst snd] in *.
+    split; [|exact Hfr].
+    destruct (w_alive s1); [now apply stuck_bound|cbn [fst]; change (lenN (@nil N)) with 0; lia].
+  - assert (Hs : frag_ok maxsz (fst (app_send r s a))).
+    { destruct r, a; cbn [app_send]; try (destruct (_ && _)); cbn [fst]; try exact Hf;
+        unfold frag_ok in *; cbn [srv_send_close cl_send_close fst w_frag]; exact Hf. }
+    cbn [fst snd]. destruct (app_send r s a) as [s1 ev]. cbn [fst snd] in *. split; [exact Hb|exact Hs].
+Qed.
+
+Theorem buffers_bounded r maxsz : forall ops c,
+  bounded maxsz c -> bounded maxsz (fst (wrun r maxsz c ops)).
+Proof.
+  induction ops as [|o ops IH]; intros c H; [exact H|].
+  cbn [wrun].
+  pose proof (bounded_wstep r maxsz c o H) as H1.
+  destruct (wstep r maxsz c o) as [c1 e1]. cbn [fst] in H1.
+  specialize (IH c1 H1). destruct (wrun r maxsz c1 ops) as [c2 e2]. exact IH.
+Qed.
+
+(* the two headers that used to make the endpoints buffer for ever now fail the connection at once *)
 Definition big_header : list N := [130; 127; 64; 0; 0; 0; 0; 0; 0; 0].
-Lemma server_buffer_unbounded_witness :
-  let '(c, ev) := feed_all Server 16 conn_init [big_header; repeat 7 200] in
-  (lenN (fst c) =? 210) && match ev with [] => true | _ => false end = true.
-Proof. vm_compute. reflexivity. Qed.
+Definition bad_ping_header : list N := [137; 254; 0; 200].
